@@ -1,3 +1,147 @@
+import PB.Model.Updater
 import PB.Drv.Loop
-/- Driver stub for C19 (model not built yet): every op is rejected. -/
-def main : IO Unit := PB.Drv.lineLoop (fun _ => "bad-op")
+/- Driver for C19: one updater API call per line on a model registry; `#` resets the registry. -/
+namespace PB.Drv.C19
+open PB PB.Updater
+
+/-- a token is raw ASCII, or `x:<hex>` for arbitrary bytes (`x:-` = empty) -/
+def tok (t : String) : Option Str :=
+  if t.startsWith "x:" then (parseHex (t.drop 2).toString).map (·.map UInt8.toNat)
+  else some (t.toList.map Char.toNat)
+
+def ascii (s : Str) : String := String.ofList (s.map Char.ofNat)
+def hexOf (s : Str) : String := toHex (s.map UInt8.ofNat)
+
+def bool? : String → Option Bool
+  | "0" => some false
+  | "1" => some true
+  | _ => none
+
+def idx? : String → Option (Option Bool)
+  | "nil" => some none
+  | "auto" => some (some true)
+  | "noauto" => some (some false)
+  | _ => none
+
+def int? (s : String) : Option Int :=
+  if s.startsWith "-" then (s.drop 1).toString.toNat?.map (fun n => -(n : Int)) else s.toNat?.map (fun n => (n : Int))
+
+def insertStr (x : Str) : List Str → List Str
+  | [] => [x]
+  | y :: ys => if strLt y x then y :: insertStr x ys else x :: y :: ys
+def sortStrs (l : List Str) : List Str := l.foldr insertStr []
+
+def insertKV {α : Type} (x : Str × α) : List (Str × α) → List (Str × α)
+  | [] => [x]
+  | y :: ys => if strLt y.1 x.1 then y :: insertKV x ys else x :: y :: ys
+def sortKV {α : Type} (l : List (Str × α)) : List (Str × α) := l.foldr insertKV []
+
+def verS (v : Ver) : String := ascii v.str
+def optVerS : Option Ver → String
+  | none => "-"
+  | some v => verS v
+
+def flagsS (rv : RV) : String :=
+  let s := (if rv.avail then "A" else "") ++ (if rv.cur then "C" else "") ++
+    (if rv.pre then "P" else "") ++ (if rv.bl then "B" else "")
+  if s.isEmpty then "-" else s
+
+def trimExt (p : Str) : Str :=
+  -- strip from the last '.' (only called when the last path element has one)
+  (p.reverse.dropWhile (· ≠ 46)).drop 1 |>.reverse
+
+def filePath (id : Str) (k : FileKey) : Str :=
+  let p := getVersionedPath id k.1.str
+  if k.2 = 0 then p else if k.2 = 1 then p ++ [46, 115, 105, 103] else trimExt p
+
+def resS (id : Str) (r : Res) : String :=
+  let ghost (o : Option Ver) : String := match o with
+    | none => "-"
+    | some v => if r.versions.any (fun rv => rv.ver == v) then verS v else verS v ++ "!ghost"
+  let idx := match r.index with | none => "nil" | some true => "auto" | some false => "noauto"
+  s!"{ascii id} sel={ghost r.selected} act={ghost r.active} idx={idx} v=[" ++
+    ",".intercalate (r.versions.map (fun rv => verS rv.ver ++ ":" ++ flagsS rv)) ++ "]"
+
+def dumpS (s : St) : String :=
+  let rs := sortKV s.res
+  let files := sortStrs (rs.foldr (fun p acc => p.2.disk.map (filePath p.1) ++ acc) [])
+  " | ".intercalate (rs.map (fun p => resS p.1 p.2)) ++ " || disk=[" ++ ",".intercalate (files.map ascii) ++ "]"
+
+def outS : Out → String
+  | .ok => "ok"
+  | .errParse => "err parse"
+  | .errNotFound => "err notfound"
+  | .errNotLocal => "err notlocal"
+  | .errLast => "err last"
+  | .errNoVersion => "err noversion"
+  | .nilSelected => "nil-selected"
+  | .file v p => s!"file {verS v} {ascii p}"
+  | .version v => s!"version {optVerS v}"
+  | .selectedMap m =>
+    if m.isEmpty then "selected -" else
+      "selected " ++ ",".intercalate ((sortKV m).map (fun p => ascii p.1 ++ "=" ++ verS p.2))
+
+def parseOp (ws : List String) : Option Op :=
+  match ws with
+  | ["flags", o, d, p] => do some (.setFlags (← bool? o) (← bool? d) (← bool? p))
+  | ["add", id, ver, a, c, p, ix] => do
+    some (.add (← tok id) (← tok ver) (← bool? a) (← bool? c) (← bool? p) (← idx? ix))
+  | ["touch", id, ver, k] => do some (.touch (← tok id) (← tok ver) (← k.toNat?))
+  | ["select"] => some .select
+  | ["getfile", id] => do some (.getFile (← tok id))
+  | ["blacklist", id, ver] => do some (.blacklist (← tok id) (← tok ver))
+  | ["purge", k] => do some (.purge (← int? k))
+  | ["selected"] => some .selected
+  | ["getversion", id] => do some (.getVersion (← tok id))
+  | _ => none
+
+def cmpS (a b : Ver) : String := if a.lt b then "lt" else if b.lt a then "gt" else "eq"
+
+def handle (s : St) (line : String) : St × String :=
+  let ws := PB.Drv.words line
+  match ws with
+  | ["dump"] => (s, dumpS s)
+  | ["vpath", id, ver] =>
+    match tok id, tok ver with
+    | some i, some v => (s, hexOf (getVersionedPath i v))
+    | _, _ => (s, "bad-op")
+  | ["idver", p] =>
+    match tok p with
+    | some p => (s, match getIdentifierAndVersion p with
+        | some (i, v) => s!"ok {hexOf i} {hexOf v}"
+        | none => "none")
+    | none => (s, "bad-op")
+  | ["rt", id, ver] =>
+    match tok id, tok ver with
+    | some i, some v => (s, match getIdentifierAndVersion (getVersionedPath i v) with
+        | some (i', v') => s!"ok {hexOf i'} {hexOf v'}"
+        | none => "none")
+    | _, _ => (s, "bad-op")
+  | ["rtb", p] =>
+    match tok p with
+    | some p => (s, match getIdentifierAndVersion p with
+        | some (i, v) => s!"ok {hexOf (getVersionedPath i v)}"
+        | none => "none")
+    | none => (s, "bad-op")
+  | ["rawver", v] =>
+    match tok v with
+    | some v => (s, if matchRawVersion v then "match" else "nomatch")
+    | none => (s, "bad-op")
+  | ["vernorm", v] =>
+    match tok v with
+    | some v => (s, match parseVer v with | some x => verS x | none => "err parse")
+    | none => (s, "bad-op")
+  | ["vercmp", a, b] =>
+    match tok a, tok b with
+    | some a, some b => (s, match parseVer a, parseVer b with
+        | some x, some y => cmpS x y
+        | _, _ => "err parse")
+    | _, _ => (s, "bad-op")
+  | _ =>
+    match parseOp ws with
+    | some op => let (s', o) := step s op; (s', outS o)
+    | none => (s, "bad-op")
+
+end PB.Drv.C19
+
+def main : IO Unit := PB.Drv.runState ({} : PB.Updater.St) PB.Drv.C19.handle
